@@ -2279,10 +2279,16 @@ impl ConfigState {
             .map(|cluster_id| {
                 let mut hasher = DefaultHasher::new();
                 self.clusters.get(cluster_id).hash(&mut hasher);
-                if let Some(backends) = self.backends.get(cluster_id) {
+                // a bucket emptied by the removal of its last entry is the same
+                // configuration as a bucket that never existed
+                if let Some(backends) = self.backends.get(cluster_id).filter(|b| !b.is_empty()) {
                     backends.iter().collect::<BTreeSet<_>>().hash(&mut hasher)
                 }
-                if let Some(tcp_fronts) = self.tcp_fronts.get(cluster_id) {
+                if let Some(tcp_fronts) = self
+                    .tcp_fronts
+                    .get(cluster_id)
+                    .filter(|fronts| !fronts.is_empty())
+                {
                     tcp_fronts.iter().collect::<BTreeSet<_>>().hash(&mut hasher)
                 }
                 (cluster_id.to_owned(), hasher)
